@@ -741,6 +741,11 @@ Fixpoint all_chunks_ok (kind : Z) (h : list sop) (cs : list (list Z)) : bool :=
   | _, _ => false
   end.
 
+(** scanner kinds 10..12 are the scanners of kinds 0..2 created through [Default::default()]:
+    by the documentation a default scanner is a new one (the polling scanner with timeout zero) *)
+Definition ctor_kind (kind : Z) : Z := if Z.leb 10 kind then kind - 10 else kind.
+Definition ctor_timeout (kind timeout : Z) : N := if Z.leb 10 kind then 0%N else dec_timeout timeout.
+
 (** tag 150: interleaved run, then one own-scanner run per listed channel *)
 Definition check_150 (kind : Z) (timeout : N) (chans : list N) (ops obs : list Z) : verdict :=
   let h := dec_sops ops in
@@ -1160,10 +1165,10 @@ Definition check (tag : Z) (inp obs : list Z) : verdict :=
   | 132, timeout :: l => check_132 (dec_timeout timeout) l obs
   | 140, timeout :: h => check_140 (dec_timeout timeout) (dec_sops h) obs
   | 150, kind :: timeout :: nch :: c1 :: c2 :: c3 :: ops =>
-      check_150 kind (dec_timeout timeout) (firstn (Z.to_nat nch) [nz c1; nz c2; nz c3]) ops obs
+      check_150 (ctor_kind kind) (ctor_timeout kind timeout) (firstn (Z.to_nat nch) [nz c1; nz c2; nz c3]) ops obs
   | 160, kind :: timeout :: nprior :: rest =>
       let '(prior, msg) := take_ops (Z.to_nat nprior) rest in
-      check_160 kind (dec_timeout timeout) prior msg obs
+      check_160 (ctor_kind kind) (ctor_timeout kind timeout) prior msg obs
   | 161, [n] => check_161 (nz n) obs
   | 162, [idx] => check_162 (Z.to_nat idx) obs
   | 190, tidx :: j =>
@@ -1178,6 +1183,6 @@ Definition check (tag : Z) (inp obs : list Z) : verdict :=
       mkV (listZ_eqb obs model) (Z.eqb (last obs 0) 1) model
   | 170, kind :: timeout :: n1 :: rest =>
       let '(ops1, ops2) := take_ops (Z.to_nat n1) rest in
-      check_170 kind (dec_timeout timeout) ops1 ops2 obs
+      check_170 (ctor_kind kind) (ctor_timeout kind timeout) ops1 ops2 obs
   | _, _ => bad_record
   end.
